@@ -16,6 +16,10 @@
    Part D  the application's storage writes ([OSetStore] of C07's alphabet).
    Part E  traces from rn_new; applied <= committed <= last_index at every point;
            C07 / C13 corollaries without a RepInv hypothesis at the hand-out points.
+   Samples non-vacuity (two traces, the restart window) and witnesses that each
+           precondition is needed.
+   Part F  the outbound queue: every MsgAppend is a contiguous batch (C13, node level).
+   Part G  commit_since_index < u64::MAX is an invariant (C07, node level).
    Statements are pinned in Props/C14.v (section "node level"), Props/C07.v, Props/C13.v. *)
 From RV Require Import Base.Prelude Base.IdSet M.Util M.UtilProofs M.Proto M.MemStorage
   M.MemStorageProofs M.Inflights M.Progress M.RaftLog M.Quorum M.ConfChange M.Msg M.Raft
